@@ -235,6 +235,44 @@ Theorem traceql_correct_single_refuted_without_span_cap :
 Proof. exists c0, d101, e3. exact span_list_cut_witness. Qed.
 Print Assumptions traceql_correct_single_refuted_without_span_cap.
 
+(* 14b/14c. What IS guaranteed without the guard spans_capped (every database): judged by result_ok_cap 100 -- the traces are exactly the
+   right ones (all matching traces, or the `limit` most recent; the aggregate filter is decided over ALL matched spans of a trace, HAVING
+   sees every row), no trace twice, and every returned span list consists of distinct matched spans of its trace: all of them when there
+   are at most 100, otherwise 100 of them.  WHICH 100 is deliberately not judged: the evaluator takes the first 100 in row order;
+   ClickHouse promises an order for groupArray's input only "when the subquery result is small enough" (index_search carries ORDER BY
+   timestamp_ns DESC: the intent is the 100 newest) and none for groupUniqArray (&& / ||), so the choice is not a function of the query
+   and the data.  This is why the cut stays a recorded finding (span-list-cut-at-100) instead of a reference-semantics choice. *)
+Theorem traceql_correct_single_any_spans : forall re_match parse_float hash64 (c : ctx) (d : db),
+  rf_max c = 0%Z -> db_consistent c d ->
+  forall e : attr_exp,
+  keys_ok e = true ->
+  forallb term_lit_ok (fst (snd (analyze_cond e ([], [])))) = true ->
+  (List.length (fst (snd (analyze_cond e ([], [])))) <= 64)%nat ->
+  (cond_depth (fst (analyze_cond e ([], []))) <= 28)%nat ->
+  lits_exact e = true ->
+  forall (ao : andor) (n : nat) (s : select),
+  plan (q1 e ao) MSearch c n = Ok s ->
+  exists res, index_rows_g re_match parse_float hash64 c d s = Some res
+              /\ result_ok_cap 100 c (traceql_sem re_match parse_float false c d (q1 e ao)) res = true.
+Proof. exact TraceqlCorrectProofs.traceql_correct_single_any_spans. Qed.
+Print Assumptions traceql_correct_single_any_spans.
+
+Theorem traceql_correct_agg_any_spans : forall re_match parse_float hash64 (c : ctx) (d : db),
+  rf_max c = 0%Z -> db_consistent c d ->
+  forall e : attr_exp,
+  keys_ok e = true ->
+  forallb term_lit_ok (fst (snd (analyze_cond e ([], [])))) = true ->
+  (List.length (fst (snd (analyze_cond e ([], [])))) <= 64)%nat ->
+  (cond_depth (fst (analyze_cond e ([], []))) <= 28)%nat ->
+  lits_exact e = true ->
+  forall ag : aggregator, agg_guard ag = true -> agg_lit_exact ag = true ->
+  forall (ao : andor) (n : nat) (s : select),
+  plan (q2 e ag ao) MSearch c n = Ok s ->
+  exists res, index_rows_g re_match parse_float hash64 c d s = Some res
+              /\ result_ok_cap 100 c (traceql_sem re_match parse_float false c d (q2 e ag ao)) res = true.
+Proof. exact TraceqlAggProofs.traceql_correct_agg_any_spans. Qed.
+Print Assumptions traceql_correct_agg_any_spans.
+
 (* ---------------------------------------------------------------- && / || between selectors
 
    15. Layer "operand": the statement ComplexAndPlanner / ComplexOrPlanner wrap around operand number i,
